@@ -16,7 +16,7 @@
 EXTENDS Fx, Types
 
 Family(n) == CASE n \in {"linsrgb", "srgb", "hsl", "hsv", "hwb", "adobe", "linadobe", "p3", "linp3", "rec2020", "linrec2020", "rec709",
-                      "hsv_adobe", "hsl_p3", "hwb_rec2020", "prophoto", "linprophoto", "hsv_prophoto", "dcip3", "lindcip3",
+                      "hsv_adobe", "hsl_p3", "hwb_rec2020", "prophoto", "linprophoto", "hsv_prophoto", "dcip3", "lindcip3", "dcip3plus", "lindcip3plus",
                       "hsv_linsrgb", "hsl_linsrgb", "hwb_rec709"} -> "rgb"
                [] n \in {"oklab", "oklch", "okhsl", "okhsv", "okhwb"} -> "ok"
                [] OTHER -> "cie"
@@ -28,6 +28,7 @@ RgbSpaceOf(n) == CASE n \in {"adobe", "linadobe", "hsv_adobe"} -> "adobe"
                    [] n \in {"rec2020", "linrec2020", "hwb_rec2020"} -> "rec2020"
                    [] n \in {"prophoto", "linprophoto", "hsv_prophoto"} -> "prophoto"
                    [] n \in {"dcip3", "lindcip3"} -> "dci"
+                   [] n \in {"dcip3plus", "lindcip3plus"} -> "dciplus"
                    [] OTHER -> "srgb"            \* srgb, linsrgb, rec709 and their hexcone forms share the BT.709 primaries
 (* does the walk cross a hard-coded RGB <-> XYZ matrix pair (values or hub images)?  Yes when it mixes RGB-family
    nodes with others, or RGB-family nodes of different primaries. *)
